@@ -8,6 +8,7 @@ import (
 
 	"verif/internal/driver"
 	"verif/internal/gen"
+	"verif/internal/vfile"
 )
 
 // C09: the file is append-only and read paths never write.
@@ -19,15 +20,15 @@ var mixC09 = Mix{Set: 26, Delete: 9, Get: 3, GetItem: 3, Exist: 1, MinMax: 2, To
 func init() {
 	register(&Prop{
 		ID: "C09", Level: "exploration",
-		Rule: "the append-only monitor lives inside the instrumented StoreFile and judges EVERY WriteAt/Truncate the store issues, with the API call in progress as a tag: a write must start at or beyond the end of the last durable root record (maintained by the file object itself: a completed write that is exactly one root record raises it, Truncate lowers it), may only be issued by Flush, Collection.Write or the destination side of CopyTo, and a Truncate only by FlushRevert of the writable store and only to 0 or to the end of a root record still in the file. History cases: random histories over all operations (incl. flushes that fail on one write - outright or torn - and are retried, snapshots and their FlushRevert / refused mutations, CopyTo, FlushRevert, Collection.Write, re-opens on files with unreferenced tails). Sweep cases: a flushed file is brought into each cache state {freshly re-opened, partially loaded, evicted, with unflushed changes pending} and EVERY read-only entry point is run (NewStore on the same file, GetCollectionNames/GetCollection, Get/GetItem/Exist/Min/Max/GetTotals, all visit kinds incl. Random and BlockEx, iterators, Len, EvictSomeItems, Snapshot and everything through it incl. its FlushRevert and refused mutations, CopyTo as source, Stats/AllocStats/MarshalJSON); after each one the file must have received zero writes/truncates and be byte-identical. Cross-check case (thorough tier only): a fixed history (flushes, re-open, read-only activity incl. snapshot FlushRevert and CopyTo source, FlushRevert, flush after revert) runs on a real os.File under strace -f; the pwrite64/ftruncate calls the kernel saw on that file must equal, in order, the WriteAt/Truncate calls at the StoreFile interface, no positionless write(2) may reach it, and tools/view (names / items) under strace must neither open it for writing nor change it; if ptrace is not permitted the case reports itself as skipped. Non-trivial = history with >= 2 flushes and a revert or re-open, or any sweep; distinct = op-trace hash / (sweep, state).",
+		Rule: "the append-only monitor lives inside the instrumented StoreFile and judges EVERY WriteAt/Truncate the store issues, with the API call in progress as a tag: a write must start at or beyond the end of the last durable root record (maintained by the file object itself: a completed write that is exactly one root record raises it, Truncate lowers it), may only be issued by Flush, Collection.Write or the destination side of CopyTo, and a Truncate only by FlushRevert of the writable store and only to 0 or to the end of a root record still in the file. History cases: random histories over all operations (incl. flushes that fail on one write - outright or torn - and are retried, snapshots and their FlushRevert / refused mutations, CopyTo, FlushRevert, Collection.Write, re-opens on files with unreferenced tails). Sweep cases: a flushed file is brought into each cache state {freshly re-opened, partially loaded, evicted, with unflushed changes pending} and EVERY read-only entry point is run (NewStore on the same file, GetCollectionNames/GetCollection, Get/GetItem/Exist/Min/Max/GetTotals, all visit kinds incl. Random and BlockEx, iterators, Len, EvictSomeItems, Snapshot and everything through it incl. its FlushRevert and refused mutations, CopyTo as source, Stats/AllocStats/MarshalJSON); after each one the file must have received zero writes/truncates and be byte-identical. Re-entrant cases: the BeforeItemWrite callback, called in the middle of a Flush for an item of one collection, records the fact in another collection and then calls Flush again / Write() on that other collection / nothing (store use from inside a callback on the writer goroutine); every write of the outer and of the nested call is judged by the same monitor. Cross-check case (thorough tier only): a fixed history (flushes, re-open, read-only activity incl. snapshot FlushRevert and CopyTo source, FlushRevert, flush after revert) runs on a real os.File under strace -f; the pwrite64/ftruncate calls the kernel saw on that file must equal, in order, the WriteAt/Truncate calls at the StoreFile interface, no positionless write(2) may reach it, and tools/view (names / items) under strace must neither open it for writing nor change it; if ptrace is not permitted the case reports itself as skipped. Non-trivial = history with >= 2 flushes and a revert or re-open, or any sweep; distinct = op-trace hash / (sweep, state).",
 		Assumptions: []string{
 			"'for all call paths from the read-only entry points' is covered only as far as the sweeps and histories execute them; the evidence lists entry point x cache state combinations exercised",
 			"a root record whose write reported an error is not durable for this monitor",
 		},
-		NumCases: func(tier string) int { return pick(tier, 600, 20000) + pick(tier, 80, 2000) + pick(tier, 0, 1) },
+		NumCases: func(tier string) int { return pick(tier, 600, 20000) + pick(tier, 80, 2000) + pick(tier, 0, 1) + pick(tier, 90, 3000) },
 		Run:      runC09,
 		Floor: func(tier string, st map[string]int64) string {
-			for _, k := range []string{"file.writes", "file.truncates", "c09.sweep-calls", "c09.sweep/state=reopened", "c09.sweep/state=evicted", "c09.sweep/state=pending", "c09.sweep/state=partial", "op.SnapRevert", "op.CopyTo", "op.FlushRevert", "op.CollWrite"} {
+			for _, k := range []string{"file.writes", "file.truncates", "c09.sweep-calls", "c09.sweep/state=reopened", "c09.sweep/state=evicted", "c09.sweep/state=pending", "c09.sweep/state=partial", "op.SnapRevert", "op.CopyTo", "op.FlushRevert", "op.CollWrite", "c09.reentrant/nested-flushes", "c09.reentrant/nested-collection-writes"} {
 				if st[k] == 0 {
 					return "no " + k + " observed"
 				}
@@ -45,6 +46,9 @@ func runC09(ctx *Ctx, idx int) Result {
 	if ctx.Thorough() && idx == nh+pick(ctx.Tier, 80, 2000) {
 		// syscall-level cross-check (one case): a fixed history on a real os.File under strace
 		return runC09Strace(ctx, idx)
+	}
+	if idx >= nh+pick(ctx.Tier, 80, 2000)+pick(ctx.Tier, 0, 1) {
+		return runC09Reentrant(ctx, idx, r)
 	}
 	if idx >= nh {
 		return runC09Sweep(ctx, idx, r)
@@ -196,4 +200,136 @@ func runC09Sweep(ctx *Ctx, idx int, r *gen.R) Result {
 	ctx.Add(e)
 	return Result{Hash: gen.Mix(uint64(idx), 9), NonTrivial: true, Viol: violOf(e),
 		Sample: map[string]interface{}{"index": idx, "sweep": true, "cache_state": stateName, "read_only_calls": calls, "collections": e.M.Live.Names()}}
+}
+
+// runC09Reentrant: the store is used from inside BeforeItemWrite, i.e. in the middle of a Flush: the
+// callback adds an entry to another collection and (mode 0) flushes again, (mode 1) writes that
+// collection, (mode 2) leaves it dirty.  Only the property's own rule is judged: every WriteAt of the
+// outer and the nested call goes through the append-only monitor of the instrumented file.
+func runC09Reentrant(ctx *Ctx, idx int, r *gen.R) Result {
+	f := vfile.New(fmt.Sprintf("c09r-%d", idx))
+	mode := idx % 3
+	var s *gkvlite.Store
+	depth, nested := 0, 0
+	audited := map[string]bool{}
+	var cbErr error
+	cb := gkvlite.StoreCallbacks{
+		BeforeItemWrite: func(c *gkvlite.Collection, i *gkvlite.Item) (*gkvlite.Item, error) {
+			if depth > 0 || c.Name() != "data" || audited[string(i.Key)] {
+				return i, nil
+			}
+			depth++
+			defer func() { depth-- }()
+			audited[string(i.Key)] = true
+			a := s.GetCollection("audit")
+			if err := a.Set(append([]byte("wrote-"), i.Key...), []byte("x")); err != nil {
+				cbErr = err
+				return i, nil
+			}
+			switch mode {
+			case 0:
+				if err := s.Flush(); err != nil {
+					cbErr = err
+				}
+				ctx.Stats["c09.reentrant/nested-flushes"]++
+			case 1:
+				if err := a.Write(); err != nil {
+					cbErr = err
+				}
+				ctx.Stats["c09.reentrant/nested-collection-writes"]++
+			}
+			nested++
+			return i, nil
+		},
+	}
+	var trace []string
+	var viol *Viol
+	// errors returned by the (nested) calls are not the property's business: they end the case, only
+	// the file monitor's verdicts (and a panic) are reported
+	stopped := false
+	fail := func(sig, detail string) {
+		if hasPrefix(sig, "panic/") {
+			if viol == nil {
+				viol = &Viol{Sig: sig, Detail: detail, Trace: tail(trace, 30)}
+			}
+			return
+		}
+		stopped = true
+		ctx.Stats["c09.reentrant/cases-ended-by-an-error"]++
+		trace = append(trace, sig+": "+detail)
+	}
+	open := func() {
+		f.SetTag("Open")
+		var err error
+		s, err = gkvlite.NewStoreEx(f, cb)
+		f.SetTag("")
+		if err != nil {
+			fail("C09/reentrant/open-error", fmt.Sprintf("NewStoreEx: %v", err))
+		}
+	}
+	func() {
+		defer func() {
+			if p := recover(); p != nil {
+				fail("panic/C09-reentrant", fmt.Sprintf("panic: %v", p))
+			}
+		}()
+		open()
+		if viol != nil || stopped {
+			return
+		}
+		f.SetTag("SetCollection")
+		s.SetCollection("audit", nil)
+		s.SetCollection("data", nil)
+		f.SetTag("")
+		rounds := r.Range(1, 4)
+		for round := 0; round < rounds && viol == nil && !stopped; round++ {
+			data := s.GetCollection("data")
+			for k, n := 0, r.Range(1, 6); k < n; k++ {
+				key := []byte(fmt.Sprintf("%c%d-%d", 'a'+r.Intn(6), round, k))
+				f.SetTag("Set")
+				err := data.Set(key, r.Bytes(r.Range(0, 90)))
+				f.SetTag("")
+				trace = append(trace, fmt.Sprintf("data.Set(%s)", key))
+				if err != nil {
+					fail("C09/reentrant/set-error", err.Error())
+				}
+			}
+			f.SetTag("Flush")
+			err := s.Flush()
+			f.SetTag("")
+			trace = append(trace, fmt.Sprintf("Flush (mode %d, %d callbacks re-entered so far) -> %v", mode, nested, err))
+			if err != nil {
+				fail("C09/reentrant/flush-error", err.Error())
+			}
+			if r.P(30) && viol == nil && !stopped {
+				s.Close()
+				open()
+				trace = append(trace, "re-open")
+			}
+		}
+	}()
+	if cbErr != nil {
+		fail("C09/reentrant/nested-call-error", cbErr.Error())
+	}
+	if len(f.Violations) > 0 && viol == nil {
+		v := f.Violations[0]
+		sig := v
+		if i := indexOf(v, ": "); i >= 0 {
+			sig = v[:i]
+		}
+		viol = &Viol{Sig: sig + "/reentrant", Detail: "[store used from inside BeforeItemWrite, mode " + []string{"nested Flush", "nested Collection.Write", "mutation only"}[mode] + "] " + v, Trace: tail(trace, 30)}
+	}
+	ctx.Stats["file.writes"] += int64(f.NWrites)
+	ctx.Stats["c09.reentrant/callbacks-re-entered"] += int64(nested)
+	return Result{Hash: gen.Mix(uint64(idx), uint64(f.NWrites)), NonTrivial: nested > 0, Viol: viol,
+		Sample: map[string]interface{}{"index": idx, "reentrant": true, "mode": mode, "callbacks_re_entered": nested, "file_writes": f.NWrites}}
+}
+
+func indexOf(s, sub string) int {
+	for i := 0; i+len(sub) <= len(s); i++ {
+		if s[i:i+len(sub)] == sub {
+			return i
+		}
+	}
+	return -1
 }
